@@ -43,6 +43,8 @@ TypeQueries(x) ==
   IN <<Q("kind", kd), Q("name", NameOf(x)), Q("pkg", PkgPathOf(x)), Q("str", Str(x)),
        Q("cmp", BoolStr(Comparable(x))), Q("nm", MethodsLine(x))>>
      \o (IF kd = "interface" THEN <<>> ELSE <<Q("pnm", MethodsLine(Ptr(x)))>>)
+     \* Type.Method(0).Type is the func type whose first parameter is the receiver; identical types are one reflect.Type
+     \o (IF kd # "interface" /\ Len(Listed(x)) > 0 THEN <<Q("mteq", "true")>> ELSE <<>>)
      \o (CASE kd = "struct" -> LET n == Len(StructOf(x).fs) IN
                                 <<Q("nf", ToString(n))>> \o [i \in 1..n |-> Q("f" \o ToString(i - 1), FieldLine(x, i))]
            [] kd \in {"ptr", "slice"} -> <<Q("elem", Str(u.e))>>
@@ -81,6 +83,7 @@ DeqCases(vs) == LET P == DeqPairs(Len(vs)) IN
 
 CaseOf(x) == LET vs == Vals(x) IN
   [key |-> Str(x), term |-> x, q |-> TypeQueries(x),
+   mt0 |-> IF KindOf(x) # "interface" /\ Len(Listed(x)) > 0 THEN <<MethodResType(Listed(x)[1])>> ELSE <<>>,
    vals |-> [i \in 1..Len(vs) |-> ValCase(vs[i])],
    deq |-> DeqCases(vs)]
 
